@@ -242,7 +242,9 @@ class HamiltonianChain(MarkovChain):
         return self.theta[-1]
 
     def replace_last(self, theta: ndarray):
-        self.theta[-1] = theta
+        # (a float copy of the values, as for the start point: the caller's array stays
+        # the caller's - changing it later must not move the chain)
+        self.theta[-1] = array(theta, dtype=float64)
 
     def get_parameter(self, index: int, burn: int = 1, thin: int = 1) -> ndarray:
         """
